@@ -143,3 +143,62 @@ func specialScenarios() []specialScenario {
 	add("empty-log", true, specialBaseBook, absLog{})
 	return out
 }
+
+// specialPairs: every unordered pair of special scenarios merged into one input (the recipes of both books - the second
+// book's recipes under names the first one does not use - and the days of both logs, in both orders of the logs):
+// two departures from the ordinary input at a time. Used by the thorough tiers.
+func specialPairs() []specialScenario {
+	base := specialScenarios()
+	var out []specialScenario
+	for i := 1; i < len(base); i++ { // (0 is the base scenario itself)
+		for j := i + 1; j < len(base); j++ {
+			a, b := base[i], base[j]
+			if strings.HasPrefix(a.Name, "empty-") || strings.HasPrefix(b.Name, "empty-") || a.Name == "repeated-heading-in-the-book" || b.Name == "repeated-heading-in-the-book" {
+				continue
+			}
+			used := map[string]bool{}
+			book := append(absBook{}, a.Book...)
+			for _, r := range a.Book {
+				used[r.Name] = true
+			}
+			clash := false
+			for _, r := range b.Book {
+				if used[r.Name] {
+					// the same name in both books: keep the pair only if both define it identically (the base recipes)
+					same := false
+					for _, ar := range a.Book {
+						if ar.Name == r.Name && fmt.Sprint(ar.Ings) == fmt.Sprint(r.Ings) {
+							same = true
+						}
+					}
+					if !same {
+						clash = true
+					}
+					continue
+				}
+				used[r.Name] = true
+				book = append(book, r)
+			}
+			if clash {
+				continue
+			}
+			for order := 0; order < 2; order++ {
+				lg := append(append(absLog{}, a.Log...), b.Log...)
+				if order == 1 {
+					lg = append(append(absLog{}, b.Log...), a.Log...)
+				}
+				out = append(out, specialScenario{Name: fmt.Sprintf("%s + %s (%d)", a.Name, b.Name, order), Book: book, Log: lg, Exact: a.Exact && b.Exact})
+			}
+		}
+	}
+	return out
+}
+
+// specialsFor: the scenarios of a tier (thorough: singles and pairs).
+func specialsFor(tier string) []specialScenario {
+	s := specialScenarios()
+	if tier == "thorough" {
+		s = append(s, specialPairs()...)
+	}
+	return s
+}
